@@ -29,7 +29,10 @@ pub fn len(r: &mut Rng, d: u32) -> usize {
         return 0;
     }
     let k = r.below(100);
-    if d >= 3 && k >= 97 {
+    if d >= 3 && k == 99 && r.chance(1, 12) {
+        // the compact length prefix crosses from two to four bytes
+        *r.pick(&[16383usize, 16384, 16385])
+    } else if d >= 3 && k >= 97 {
         *r.pick(&[63usize, 64, 65])
     } else if k < 25 {
         0
